@@ -55,17 +55,26 @@ type Config struct {
 // ---------------------------------------------------------------- source
 
 type source struct {
-	w    *World
-	data map[string][]Rec
-	ids  []string // split ids in order
+	w     *World
+	data  map[string][]Rec
+	ids   []string // split ids in order
+	epoch int64    // the job process this source configuration belongs to
 }
+
+// zombie: the job process that holds this source has been replaced.
+func (s *source) zombie() bool { return s.epoch != s.w.jobEpoch.Load() }
 
 func (s *source) Validate() error { return nil }
 func (s *source) ProtoMessage() *jobconfigpb.Source {
 	return &jobconfigpb.Source{Config: &jobconfigpb.Source_Embedded{Embedded: &jobconfigpb.EmbeddedSource{}}}
 }
 func (s *source) NewSourceSplitter(ids []string, hooks connectors.SourceSplitterHooks, errc chan<- error) connectors.SourceSplitter {
-	return &splitter{src: s, runners: ids, hooks: hooks}
+	// a new incarnation of the assembly: from here on the progress model ignores
+	// handler invocations of operators deployed for earlier incarnations
+	if s.zombie() {
+		return &splitter{src: s, runners: ids, hooks: hooks, gen: -1}
+	}
+	return &splitter{src: s, runners: ids, hooks: hooks, gen: s.w.gen.Add(1)}
 }
 func (s *source) NewSourceReader(connectors.SourceReaderHooks) connectors.SourceReader {
 	return &reader{src: s, pos: map[string]int{}}
@@ -93,6 +102,7 @@ type splitter struct {
 	src     *source
 	runners []string
 	hooks   connectors.SourceSplitterHooks
+	gen     int64
 }
 
 func (s *splitter) IsSourceSplitter() {}
@@ -106,8 +116,24 @@ func (s *splitter) Start(ck *snapshotpb.SourceCheckpoint) error {
 			seen[ss.Split]++
 		}
 	}
+	if s.gen < 0 || s.src.zombie() {
+		// a replaced job process that is still running: what it does reaches nobody
+		return nil
+	}
 	s.src.w.noteRestoredSplits(seen)
 	round := s.src.w.newRound(ck.GetCheckpointId(), pos)
+	// the engine has gone back to the checkpoint: so does the progress model
+	base := map[string]int{}
+	for id, n := range pos {
+		d := s.src.data[id]
+		for i := 0; i < n && i < len(d); i++ {
+			base[d[i].Key+"/"+id] = d[i].Ord + 1
+		}
+	}
+	s.src.w.H.mu.Lock()
+	s.src.w.H.Applied = base
+	s.src.w.H.mu.Unlock()
+	s.src.w.startedGen.Store(s.gen)
 	as := map[string][]*workerpb.SourceSplit{}
 	for i, id := range s.src.ids {
 		c, _ := json.Marshal(cursor{Pos: pos[id], Round: round})
@@ -210,10 +236,26 @@ func (h *Handler) KeyEventBatch(ctx context.Context, evs [][]byte) ([][]*handler
 	return out, nil
 }
 
+// workerHandler is the handler as one worker process sees it: it tells the
+// reference handler which incarnation of the assembly the invocation belongs to.
+type workerHandler struct {
+	*Handler
+	x *Worker
+}
+
+func (wh workerHandler) ProcessEventBatch(ctx context.Context, req *handlerpb.ProcessEventBatchRequest) (*handlerpb.ProcessEventBatchResponse, error) {
+	return wh.Handler.process(req, wh.x.gen.Load())
+}
+
 func (h *Handler) ProcessEventBatch(ctx context.Context, req *handlerpb.ProcessEventBatchRequest) (*handlerpb.ProcessEventBatchResponse, error) {
+	return h.process(req, h.w.gen.Load())
+}
+
+func (h *Handler) process(req *handlerpb.ProcessEventBatchRequest, gen int64) (*handlerpb.ProcessEventBatchResponse, error) {
 	h.mu.Lock()
 	defer h.mu.Unlock()
 	h.Invocations++
+	current := gen == h.w.gen.Load()
 	st := map[string]map[string]int{}
 	for _, ks := range req.KeyStates {
 		m := map[string]int{}
@@ -256,7 +298,9 @@ func (h *Handler) ProcessEventBatch(ctx context.Context, req *handlerpb.ProcessE
 			h.violate("record %d of split %s (key %q, number %d of that split and key) reached the handler although the state already counts %d: a record's effect would be applied twice", r.Idx, r.Split, r.Key, r.Ord, m[r.Split])
 		}
 		m[r.Split] = r.Ord + 1
-		h.Applied[r.Key+"/"+r.Split] = r.Ord + 1
+		if current {
+			h.Applied[r.Key+"/"+r.Split] = r.Ord + 1
+		}
 		v, _ := json.Marshal(m[r.Split])
 		resp.KeyResults = append(resp.KeyResults, &handlerpb.KeyResult{Key: []byte(r.Key), StateMutationNamespaces: []*handlerpb.StateMutationNamespace{{
 			Namespace: "cnt", Mutations: []*handlerpb.StateMutation{{Mutation: &handlerpb.StateMutation_Put{Put: &handlerpb.PutMutation{Key: []byte(r.Split), Value: v}}}}}}})
@@ -279,7 +323,8 @@ type Worker struct {
 	SR      *sourcerunner.SourceRunner
 	alive   atomic.Bool
 	exiting atomic.Bool
-	depOp   atomic.Bool // the operator has been deployed once
+	gen     atomic.Int64 // incarnation of the assembly the operator was last deployed for
+	depOp   atomic.Bool  // the operator has been deployed once
 	depSR   atomic.Bool
 	stop    func()
 }
@@ -309,20 +354,23 @@ type World struct {
 	holdAcks  atomic.Bool
 	jobEpoch  atomic.Int64
 	// observations
-	StartCkpts   []uint64
-	SRAcks       []*jobpb.SourceRunnerCheckpointCompleteRequest
-	OpAcks       []*snapshotpb.OperatorCheckpoint
-	Assigned     []string // "split@pos" in assignment order
-	Rounds       []*Round
-	Deploys      int
-	Assembly     []string // operator ids of the latest deployment, in range order
-	MaxKeyCalls  int      // most KeyEventBatch calls in flight at once
-	keyCalls     int
-	RestoredDups []string
-	Delivered    map[string][]Delivered // operator id -> events in arrival order
-	nameSeq      int
-	pointHook    func(name string)
-	Exited       chan string // workers that exited on their own (a supervisor restarts them)
+	StartCkpts    []uint64
+	SRAcks        []*jobpb.SourceRunnerCheckpointCompleteRequest
+	OpAcks        []*snapshotpb.OperatorCheckpoint
+	Assigned      []string // "split@pos" in assignment order
+	Rounds        []*Round
+	gen           atomic.Int64 // incarnations of the assembly (one per source splitter the job created)
+	startedGen    atomic.Int64 // the last incarnation whose splitter was started (its deploy succeeded)
+	Deploys       int
+	Assembly      []string // operator ids of the latest deployment, in range order
+	MaxKeyCalls   int      // most KeyEventBatch calls in flight at once
+	keyCalls      int
+	RestoredDups  []string
+	Delivered     map[string][]Delivered // operator id -> events in arrival order
+	nameSeq       int
+	pointHook     func(name string)
+	Exited        chan string // workers that exited on their own (a supervisor restarts them)
+	HandlerPanics []string    // RPC handlers that panicked (the worker process exits, as with util/httpu)
 	// AvoidRedeploy, if set and true, makes a worker restart as a new process when
 	// it is asked to deploy a second time (open finding, excluded by construction)
 	AvoidRedeploy func() bool
@@ -447,7 +495,7 @@ func NewWorld(cfg Config, data map[string][]Rec, savepointURI string, fs *storag
 		ids = append(ids, id)
 	}
 	sort.Strings(ids)
-	w.Src = &source{w: w, data: data, ids: ids}
+	w.Src = &source{w: w, data: data, ids: ids, epoch: 1}
 	w.installHooks()
 	w.jobParams = &jobs.NewParams{
 		JobConfig: &config.Config{WorkerCount: cfg.Workers, KeyGroupCount: cfg.Groups, WorkingStorageLocation: "/work", Sources: []connectors.SourceConfig{w.Src}},
@@ -471,6 +519,12 @@ func (w *World) RestartJob() error {
 	p.SavepointURI = ""
 	e := w.jobEpoch.Add(1) // fences every client of the previous job process
 	w.setFactories(&p, e)
+	src := *w.Src
+	src.epoch = e
+	w.Src = &src
+	cfg := *p.JobConfig
+	cfg.Sources = []connectors.SourceConfig{w.Src}
+	p.JobConfig = &cfg
 	// its own clock (timer labels are per clock), starting at the same time
 	nc := clocks.NewFrozenClock()
 	nc.Advance(w.Clock.Now().Sub(nc.Now()))
@@ -653,12 +707,13 @@ func (c *opClient) senderAlive() bool {
 	x := c.w.byNode[c.sender]
 	return x != nil && x.alive.Load()
 }
-func (c *opClient) HandleEventBatch(ctx context.Context, b []*workerpb.Event) error {
+func (c *opClient) HandleEventBatch(ctx context.Context, b []*workerpb.Event) (err error) {
 	c.w.gate("events", c.sender, c.node.Id)
 	t := c.target()
 	if t == nil || !c.senderAlive() {
 		return fmt.Errorf("operator %s unreachable", c.node.Id)
 	}
+	defer c.w.handlerPanic(t, "HandleEventBatch", &err)
 	for _, e := range b {
 		d := Delivered{From: c.sender}
 		switch ev := e.Event.(type) {
@@ -679,7 +734,7 @@ func (c *opClient) HandleEventBatch(ctx context.Context, b []*workerpb.Event) er
 	}
 	return nil
 }
-func (c *opClient) Deploy(ctx context.Context, r *workerpb.DeployOperatorRequest) error {
+func (c *opClient) Deploy(ctx context.Context, r *workerpb.DeployOperatorRequest) (err error) {
 	if c.stale() {
 		return fmt.Errorf("stale job")
 	}
@@ -699,20 +754,24 @@ func (c *opClient) Deploy(ctx context.Context, r *workerpb.DeployOperatorRequest
 		c.w.Assembly = append(c.w.Assembly, o.Id)
 	}
 	c.w.mu.Unlock()
+	t.gen.Store(c.w.gen.Load())
+	defer c.w.handlerPanic(t, "DeployOperator", &err)
 	return t.Op.HandleDeploy(ctx, r, nopSink{})
 }
-func (c *opClient) UpdateRetainedCheckpoints(ctx context.Context, ids []uint64) error {
+func (c *opClient) UpdateRetainedCheckpoints(ctx context.Context, ids []uint64) (err error) {
 	t := c.target()
 	if t == nil || c.stale() {
 		return fmt.Errorf("operator %s unreachable", c.node.Id)
 	}
+	defer c.w.handlerPanic(t, "UpdateRetainedCheckpoints", &err)
 	return t.Op.HandleRemoveCheckpoints(ctx, &workerpb.UpdateRetainedCheckpointsRequest{CheckpointIds: ids})
 }
-func (c *opClient) NeedsTable(ctx context.Context, uri string) (bool, error) {
+func (c *opClient) NeedsTable(ctx context.Context, uri string) (needs bool, err error) {
 	t := c.target()
 	if t == nil {
 		return false, fmt.Errorf("operator %s unreachable", c.node.Id)
 	}
+	defer c.w.handlerPanic(t, "NeedsTable", &err)
 	return t.Op.HandleNeedsTable(uri), nil
 }
 
@@ -740,7 +799,7 @@ func (c *srClient) target() *Worker {
 	}
 	return x
 }
-func (c *srClient) Deploy(ctx context.Context, r *workerpb.DeploySourceRunnerRequest) error {
+func (c *srClient) Deploy(ctx context.Context, r *workerpb.DeploySourceRunnerRequest) (err error) {
 	c.w.gate("deploy-sr", "job", c.node.Id)
 	t := c.target()
 	if t == nil {
@@ -750,17 +809,19 @@ func (c *srClient) Deploy(ctx context.Context, r *workerpb.DeploySourceRunnerReq
 		c.w.restartInstead(t)
 		return fmt.Errorf("source runner %s is restarting", c.node.Id)
 	}
+	defer c.w.handlerPanic(t, "DeploySourceRunner", &err)
 	return t.SR.HandleDeploy(ctx, r)
 }
-func (c *srClient) AssignSplits(ctx context.Context, s []*workerpb.SourceSplit) error {
+func (c *srClient) AssignSplits(ctx context.Context, s []*workerpb.SourceSplit) (err error) {
 	c.w.gate("assign", "job", c.node.Id)
 	t := c.target()
 	if t == nil {
 		return fmt.Errorf("source runner %s unreachable", c.node.Id)
 	}
+	defer c.w.handlerPanic(t, "AssignSplits", &err)
 	return t.SR.HandleAssignSplits(s)
 }
-func (c *srClient) StartCheckpoint(ctx context.Context, id uint64) error {
+func (c *srClient) StartCheckpoint(ctx context.Context, id uint64) (err error) {
 	c.w.gate("start-ckpt", "job", c.node.Id)
 	c.w.mu.Lock()
 	c.w.StartCkpts = append(c.w.StartCkpts, id)
@@ -769,6 +830,7 @@ func (c *srClient) StartCheckpoint(ctx context.Context, id uint64) error {
 	if t == nil {
 		return fmt.Errorf("source runner %s unreachable", c.node.Id)
 	}
+	defer c.w.handlerPanic(t, "StartCheckpoint", &err)
 	t.SR.HandleStartCheckpoint(ctx, id)
 	return nil
 }
@@ -786,7 +848,7 @@ func (w *World) StartWorker() *Worker {
 	x.alive.Store(true)
 	bp := batching.EventBatcherParams{MaxSize: max(1, w.Cfg.Batch), MaxDelay: time.Millisecond}
 	ctx, cancel := context.WithCancel(context.Background())
-	x.Op = operator.NewOperator(operator.NewOperatorParams{ID: "op-" + name, Host: name, Job: jobClient{w, x}, UserHandler: w.H, EventBatching: bp,
+	x.Op = operator.NewOperator(operator.NewOperatorParams{ID: "op-" + name, Host: name, Job: jobClient{w, x}, UserHandler: workerHandler{w.H, x}, EventBatching: bp,
 		Clock: clocks.NewFrozenClock(),
 		NeighborOperatorFactory: func(sender string, n *jobpb.NodeIdentity) proto.Operator {
 			return &opClient{w: w, sender: sender, node: n}
@@ -829,6 +891,26 @@ func (w *World) StartWorker() *Worker {
 	go func() { err := x.SR.Start(ctx); exit("source runner", err) }()
 	x.stop = func() { x.Op.Halt(); x.SR.Halt(); cancel() }
 	return x
+}
+
+// handlerPanic models util/httpu.Server: a panic in an RPC handler shuts the
+// worker's server down, the process exits and the caller sees a failed call.
+func (w *World) handlerPanic(t *Worker, call string, err *error) {
+	r := recover()
+	if r == nil {
+		return
+	}
+	w.mu.Lock()
+	w.HandlerPanics = append(w.HandlerPanics, fmt.Sprintf("%s on %s: %v", call, t.Name, r))
+	w.mu.Unlock()
+	w.Kill(t.Name)
+	select {
+	case w.Exited <- fmt.Sprintf("%s (handler %s panicked: %v)", t.Name, call, r):
+	default:
+	}
+	if err != nil {
+		*err = fmt.Errorf("%s unreachable (handler panicked)", t.Name)
+	}
 }
 
 // Kill stops a worker abruptly: no deregistration, its in-flight calls fail.
